@@ -22,6 +22,8 @@ from deep.api.attributes import BoundedAttributes
 from deep.api.resource import Resource
 from deep.utils import time_ns
 
+_id_source = random.SystemRandom()
+
 
 class EventSnapshot:
     """This is the model for the snapshot that is uploaded to the services."""
@@ -36,7 +38,9 @@ class EventSnapshot:
         :param frames: the captured frames
         :param var_lookup: the captured variables.
         """
-        self._id = random.getrandbits(128)
+        # not random.getrandbits(): the module level functions share one generator with the application, and drawing
+        # from it would change the numbers a program that called random.seed() gets next
+        self._id = _id_source.getrandbits(128)
         self._tracepoint = tracepoint
         self._var_lookup: Dict[str, 'Variable'] = var_lookup
         self._ts_nanos = ts
